@@ -5,6 +5,8 @@ package dastard
 // C09: group triggers deliver exactly the connected secondaries; edits act as a set.
 // Pipeline world with a request history over add / delete / stop-coupling /
 // err-fb-coupling with in- and out-of-range indices, interleaved with blocks.
+// Sources and receivers of every trigger kind (none, auto, edge/level mixes, edge-multi),
+// blocks of many lengths, trigger settings and record lengths replaced between blocks.
 
 import (
 	"fmt"
@@ -17,7 +19,8 @@ import (
 func init() {
 	simrt.Register(&simrt.Check{Name: "C09", Property: "C09", Body: c09Body, Classify: classify,
 		Real: []string{"TriggerBroker (AddConnection, DeleteConnection, StopTriggerCoupling, Distribute)", "ProcessSegments (primaries / barrier / secondaries)",
-			"TriggerDataSecondary", "RPC methods AddGroupTriggerCoupling, DeleteGroupTriggerCoupling, StopTriggerCoupling, CoupleErrToFB, CoupleFBToErr"},
+			"TriggerData (auto, level, edge, edge-multi in its three record modes), TriggerDataSecondary, TrimStream",
+			"RPC methods AddGroupTriggerCoupling, DeleteGroupTriggerCoupling, StopTriggerCoupling, CoupleErrToFB, CoupleFBToErr, ConfigureTriggers, ConfigurePulseLengths"},
 		Stub: []string{"hardware (ScriptedSource)", "ZMQ publishers (sinks)", "net/rpc transport", "Lancero source for err/fb coupling (generic source: the request must be refused and change nothing)"}})
 }
 
@@ -53,7 +56,67 @@ func c09Body(env *simrt.Env) {
 
 	conn := map[pair]bool{} // reference connection set
 	var tss []TriggerState  // trigger settings of the current run
+	var epochs [][]epoch    // per channel: the record lengths in force during the current run (one epoch per change)
+	recStart := 0           // the current run's first record
+	var specs []streamSpec  // of the current run's streams
+	var edges []int         // block ends of the current run
+	emtRun := false         // the current run may have edge-multi channels
+	runRecCount := func(c int) int {
+		n := 0
+		for _, r := range w.sk.recs[recStart:] {
+			if r.rec.channelIndex == c {
+				n++
+			}
+		}
+		return n
+	}
 	valid := func(i int) bool { return i >= 0 && i < nchan }
+	// configureChannel draws trigger settings for one channel and requests them: nothing enabled, auto only, a mix
+	// of edge / level / auto, or the edge-multi trigger (three record modes, with and without the kink model). An
+	// edge-multi channel gets pulses that suit its settings in the part of its stream that is not fed yet.
+	configureChannel := func(c int) {
+		nsamp, npre := w.nsamp, w.npre
+		var ts TriggerState
+		k := simrt.Draw(8)
+		if !emtRun && k >= 5 {
+			k -= 3
+		}
+		switch {
+		case k == 0: // no trigger enabled on this channel
+			ts = TriggerState{AutoDelay: 250 * time.Millisecond, EdgeLevel: 100, EdgeRising: true, LevelLevel: 4000}
+		case k == 1:
+			ts = TriggerState{AutoTrigger: true, AutoDelay: time.Duration(float64(nsamp+simrt.Draw(2*nsamp)) / rate * float64(time.Second)), EdgeLevel: 100, EdgeRising: true}
+		case k <= 4:
+			ts = genTriggerState(specs[c], w.signed[c], nsamp, rate, true)
+		default:
+			ts = genEMTState(specs[c], w.signed[c], nsamp, npre)
+		}
+		var ok bool
+		st := FullTriggerState{ChannelIndices: []int{c}, TriggerState: ts}
+		if err := w.sc.ConfigureTriggers(&st, &ok); err != nil {
+			if !ts.EdgeMulti {
+				simrt.Fail("harness.configure", "harness:configure", "ConfigureTriggers rejected: %v", err)
+			}
+			// edge-multi settings that do not suit the record lengths an earlier request left in force
+			// (a short side and the kink model): refused, the channel keeps what it had
+			simrt.Hit("edge-multi-request-refused")
+			env.Op("chan %d: %s refused (%v)", c, c09TsString(&ts), err)
+			for _, f := range w.ss.ComputeFullTriggerState() {
+				for _, ch := range f.ChannelIndices {
+					if ch == c {
+						st.TriggerState = f.TriggerState
+					}
+				}
+			}
+			ts = st.TriggerState
+		} else if ts.EdgeMulti {
+			np := c09AddPulses(w.stream[c], w.sent, w.signed[c], specs[c].noise, &ts, edges, nsamp, npre)
+			env.Op("chan %d: %d pulses added for the edge-multi trigger", c, np)
+		}
+		tss[c] = st.TriggerState
+		env.Op("chan %d: %s", c, c09TsString(&ts))
+	}
+	kindOf := func(c int) string { return c09Kind(&tss[c]) }
 	drawIdx := func() int {
 		if simrt.Draw(5) == 0 {
 			return simrt.Draw(nchan+7) - 3 // includes out-of-range values
@@ -126,10 +189,48 @@ func c09Body(env *simrt.Env) {
 	}
 	request := func() {
 		var ok bool
-		switch simrt.Draw(8) {
-		case 0, 1, 2:
+		switch simrt.Draw(11) {
+		case 0, 1, 2, 9:
 			add(drawMap())
 			checkReported("add")
+		case 10:
+			// One channel's trigger settings are replaced between two blocks (any kind to any kind): what a
+			// source reports from here on, and what a receiver triggers on by itself, changes; what a receiver
+			// owes its sources does not.
+			c := simrt.Draw(nchan)
+			was := kindOf(c)
+			configureChannel(c)
+			w.drain()
+			epochs[c] = append(epochs[c], epoch{from: w.sent, recFrom: runRecCount(c), ts: tss[c], npre: w.npre, nsamp: w.nsamp})
+			simrt.Hit("trigger-settings-replaced-mid-run:" + was + "->" + kindOf(c))
+			for p := range conn {
+				if p.s == c || p.r == c {
+					simrt.Hit("trigger-settings-replaced-mid-run-on-a-connected-channel")
+					break
+				}
+			}
+		case 8:
+			// A pulse-length request between two blocks: all channels get the new lengths at once (there are no
+			// per-channel lengths in dastard), while every channel still holds history cut to the old ones. The
+			// server may refuse (lengths with a short side do not suit an edge-multi channel with the kink
+			// model): the harness follows the answer.
+			ns, np := drawLengths()
+			if ns > 50 {
+				l := [][2]int{{8, 5}, {10, 3}, {12, 9}, {25, 22}, {7, 3}}[simrt.Draw(5)]
+				ns, np = l[0], l[1]
+			}
+			err := w.sc.ConfigurePulseLengths(SizeObject{Nsamp: ns, Npre: np}, &ok)
+			env.Op("ConfigurePulseLengths nsamp=%d npre=%d -> %v", ns, np, err)
+			w.drain()
+			if err != nil {
+				simrt.Hit("pulse-length-request-refused")
+			} else if ns != w.nsamp || np != w.npre {
+				simrt.Hit("pulse-length-change-mid-run")
+				w.nsamp, w.npre = ns, np
+				for c := 0; c < nchan; c++ {
+					epochs[c] = append(epochs[c], epoch{from: w.sent, recFrom: runRecCount(c), ts: tss[c], npre: np, nsamp: ns})
+				}
+			}
 		case 3, 4:
 			del(drawMap())
 			checkReported("delete")
@@ -219,6 +320,8 @@ func c09Body(env *simrt.Env) {
 	lastEnd := ""
 	restartsWithConn := map[string]bool{}
 	for run := 0; run < nruns; run++ {
+		// the record lengths this run starts with (an earlier run may have changed them)
+		nsamp, npre := w.nsamp, w.npre
 		// this run's blocks and ground-truth streams
 		nblocks := 2 + simrt.Draw(9)
 		if run == 0 {
@@ -230,22 +333,42 @@ func c09Body(env *simrt.Env) {
 		var blocks []int
 		total := 0
 		for i := 0; i < nblocks; i++ {
-			n := []int{nsamp / 2, nsamp, 2 * nsamp, 3*nsamp + 1, 5}[simrt.Draw(5)]
+			var n int
+			switch simrt.Draw(9) {
+			case 0:
+				n = nsamp / 2
+			case 1:
+				n = nsamp
+			case 2:
+				n = 2 * nsamp
+			case 3:
+				n = 3*nsamp + 1
+			case 4:
+				n = 5
+			case 5: // very short blocks (a postponed primary stays postponed over several of them)
+				n = 1 + simrt.Draw(4)
+			case 6: // shorter than a record
+				n = 1 + simrt.Draw(nsamp)
+			case 7: // the post-trigger part, give or take
+				n = nsamp - npre - 1 + simrt.Draw(3)
+			default: // longer than a record
+				n = nsamp + 1 + simrt.Draw(2*nsamp)
+			}
 			if n < 1 {
 				n = 1
 			}
 			blocks = append(blocks, n)
 			total += n
 		}
-		edges := edgesOf(blocks)
-		specs := make([]streamSpec, nchan)
+		edges = edgesOf(blocks)
+		specs = make([]streamSpec, nchan)
 		w.stream = make([][]RawType, nchan)
 		for c := 0; c < nchan; c++ {
 			w.stream[c], specs[c] = genStream(total, edges, w.signed[c], nsamp)
 		}
 		w.sent, w.fed = 0, 0
 		w.blockFirst, w.blockStamp = nil, nil
-		recStart := len(w.sk.recs)
+		recStart = len(w.sk.recs)
 		env.Op("run %d: blocks=%v", run, blocks)
 		if err := w.startScripted(); err != nil {
 			simrt.Fail("harness.start", "harness:start", "Start number %d failed: %v", run+1, err)
@@ -290,24 +413,33 @@ func c09Body(env *simrt.Env) {
 			}
 		}
 		// trigger settings: some channels auto (steady primaries), some edge/level, some none
+		// The mix is per channel, so every kind of source meets every kind of receiver: a receiver's own trigger
+		// (or the lack of one) decides nothing about the secondaries it owes. The edge-multi trigger (in its three
+		// record modes, with and without the kink model) is the one trigger that reports a primary late: an edge
+		// less than one record before the end of the inspectable part of a block is reported with the next block
+		// (or later, when short blocks follow). Such a primary is a primary of the cycle in which it is reported.
 		tss = make([]TriggerState, nchan)
+		emtRun = simrt.Draw(5) != 0 // 1 run in 5 has classic triggers only
 		for c := 0; c < nchan; c++ {
-			var ts TriggerState
-			switch simrt.Draw(4) {
-			case 0: // no trigger enabled on this channel
-				ts = TriggerState{AutoDelay: 250 * time.Millisecond, EdgeLevel: 100, EdgeRising: true, LevelLevel: 4000}
-			case 1:
-				ts = TriggerState{AutoTrigger: true, AutoDelay: time.Duration(float64(nsamp+simrt.Draw(2*nsamp)) / rate * float64(time.Second)), EdgeLevel: 100, EdgeRising: true}
-			default:
-				ts = genTriggerState(specs[c], w.signed[c], nsamp, rate, true)
+			configureChannel(c)
+		}
+		epochs = make([][]epoch, nchan)
+		var emtCh []int
+		for c := 0; c < nchan; c++ {
+			epochs[c] = []epoch{{ts: tss[c], npre: npre, nsamp: nsamp}}
+			if tss[c].EdgeMulti {
+				emtCh = append(emtCh, c)
 			}
-			var ok bool
-			st := FullTriggerState{ChannelIndices: []int{c}, TriggerState: ts}
-			if err := w.sc.ConfigureTriggers(&st, &ok); err != nil {
-				simrt.Fail("harness.configure", "harness:configure", "ConfigureTriggers rejected: %v", err)
+		}
+		if len(emtCh) > 0 && simrt.Draw(2) == 0 {
+			// an edge-multi channel is the source of one or two channels from the first block on
+			m := map[int][]int{}
+			src := emtCh[simrt.Draw(len(emtCh))]
+			for j := 0; j < 1+simrt.Draw(2); j++ {
+				m[src] = append(m[src], simrt.Draw(nchan))
 			}
-			tss[c] = st.TriggerState
-			env.Op("chan %d: %s", c, tsString(&ts))
+			add(m)
+			checkReported("add")
 		}
 		if nruns > 1 && simrt.Draw(2) == 0 {
 			// connections made early in the run (so that most runs end with some)
@@ -331,6 +463,9 @@ func c09Body(env *simrt.Env) {
 			w.sync()
 			w.drain()
 			checkCycle(w, bi, first, firstRec, conn, tss)
+			if n < w.npre {
+				simrt.Hit("block-shorter-than-pretrigger")
+			}
 			if run > 0 && len(conn) > 0 {
 				simrt.Hit("cycle-with-connections-after-a-restart")
 			}
@@ -385,7 +520,7 @@ func c09Body(env *simrt.Env) {
 			per[c].recs = append(per[c].recs, r)
 		}
 		for c := 0; c < nchan; c++ {
-			o := chanObs{recs: per[c].recs, epochs: []epoch{{ts: tss[c], npre: npre, nsamp: nsamp}}}
+			o := chanObs{recs: per[c].recs, epochs: epochs[c]}
 			checkExcerpts(w, c, &o)
 		}
 	}
@@ -421,6 +556,7 @@ func checkCycle(w *pipeWorld, cycle, firstBatch, firstRec int, conn map[pair]boo
 		}
 		return false
 	}
+	var prim, sec map[int][]FrameIndex // of the split that was accepted
 	try := func(split int) string {
 		seenP, seenS := map[int]int{}, map[int]int{}
 		for i, b := range bs {
@@ -436,11 +572,11 @@ func checkCycle(w *pipeWorld, cycle, firstBatch, firstRec int, conn map[pair]boo
 				}
 			}
 		}
-		prim := map[int][]FrameIndex{}
+		prim = map[int][]FrameIndex{}
 		for _, b := range bs[:split] {
 			prim[b.ch] = b.frames
 		}
-		sec := map[int][]FrameIndex{}
+		sec = map[int][]FrameIndex{}
 		for _, b := range bs[split:] {
 			sec[b.ch] = b.frames
 		}
@@ -487,10 +623,133 @@ func checkCycle(w *pipeWorld, cycle, firstBatch, firstRec int, conn map[pair]boo
 			break
 		}
 	}
+	// which kinds of source reached which kinds of receiver in this cycle, and how far back the secondaries reach
+	kind := func(c int) string { return c09Kind(&tss[c]) }
+	if len(w.blockFirst) > 0 {
+		cur := w.blockFirst[len(w.blockFirst)-1] // first sample of this cycle's block
+		for p := range conn {
+			if len(prim[p.s]) == 0 {
+				continue
+			}
+			simrt.Hit("secondaries:" + kind(p.s) + "->" + kind(p.r))
+			for _, f := range prim[p.s] {
+				k := int(f - w.F0)
+				if k+w.nsamp-w.npre <= cur {
+					// the record was complete before this cycle's block arrived: the source reports it late
+					simrt.Hit("late-primary:" + kind(p.s) + "->" + kind(p.r))
+					if k-w.npre < cur-w.nsamp-w.npre {
+						simrt.Hit("late-primary-more-than-a-record-before-the-block:" + kind(p.s) + "->" + kind(p.r))
+					}
+					if len(w.blockFirst) > 1 && k+w.nsamp-w.npre <= w.blockFirst[len(w.blockFirst)-2] {
+						simrt.Hit("late-primary-by-two-blocks-or-more")
+					}
+				}
+			}
+		}
+		for s, fs := range prim {
+			if tss[s].EdgeMulti && tss[s].EMTState.mode == EMTRecordsTwoFullLength {
+				for i := 1; i < len(fs); i++ {
+					if d := fs[i] - fs[i-1]; d > 0 && int(d) < w.nsamp {
+						for p := range conn {
+							if p.s == s {
+								simrt.Hit("overlapping-primaries-reach-a-receiver")
+								break
+							}
+						}
+					}
+				}
+			}
+		}
+	}
 	for p := range conn {
 		if conn[pair{p.r, p.s}] {
 			simrt.Hit("receiver-that-is-also-a-source")
 			break
 		}
 	}
+}
+
+func c09Kind(ts *TriggerState) string {
+	switch {
+	case ts.EdgeMulti:
+		return "edge-multi"
+	case ts.EdgeTrigger || ts.LevelTrigger:
+		return "edge/level"
+	case ts.AutoTrigger:
+		return "auto"
+	}
+	return "none"
+}
+
+func c09TsString(ts *TriggerState) string {
+	if !ts.EdgeMulti {
+		return tsString(ts)
+	}
+	return fmt.Sprintf("edge-multi level=%d nmonotone=%d short-records=%v contaminated-records=%v kink-model=%v", ts.EdgeMultiLevel, ts.EdgeMultiVerifyNMonotone,
+		ts.EdgeMultiMakeShortRecords, ts.EdgeMultiMakeContaminatedRecords, !ts.EdgeMultiDisableZeroThreshold)
+}
+
+// c09AddPulses adds pulses that suit an edge-multi setting (steep enough for its level, rising or falling as its
+// sign says, monotone for as long as it verifies) to the part of a ground-truth stream that is not fed yet (from). Where they
+// lie with respect to the block ends decides when the source reports them: an edge in the last record length of
+// the part of a block the trigger may inspect (everything but the last nsamp-npre samples) is held back until
+// the following block, or longer when short blocks follow.
+func c09AddPulses(s []RawType, from int, signed bool, noise int, ts *TriggerState, edges []int, nsamp, npre int) int {
+	npost := nsamp - npre
+	lo, hi := 0, 65535
+	if signed {
+		lo, hi = -32768, 32767
+	}
+	T := int(ts.EdgeMultiLevel)
+	if noise > 100 {
+		noise = 100 // (a stream of full-scale noise triggers by itself)
+	}
+	step := 2*T + 3*noise + 20
+	if T < 1 {
+		step = 2*T - 3*noise - 20
+	}
+	made := 0
+	for _, e := range edges {
+		if simrt.Draw(5) >= 3 {
+			continue
+		}
+		var pos int
+		switch simrt.Draw(5) {
+		case 0, 1, 2: // less than one record before the end of the inspectable part of the block
+			pos = e - npost - 1 - simrt.Draw(nsamp)
+		case 3: // right at the end of the inspectable part
+			pos = e - npost - 2 + simrt.Draw(5)
+		default: // anywhere in the two records before the end of the block
+			pos = e - 1 - simrt.Draw(2*nsamp)
+		}
+		if pos < npre+2 || pos < from || pos >= len(s) {
+			continue
+		}
+		rise := ts.EdgeMultiVerifyNMonotone + simrt.Draw(2)
+		if rise < 1 {
+			rise = 1
+		}
+		tau := float64(1 + nsamp/4)
+		for i := pos; i < len(s) && i < pos+rise+6*int(tau); i++ {
+			var a float64
+			if i-pos < rise {
+				a = float64(step * (i - pos + 1))
+			} else {
+				a = float64(step * rise)
+				for k := 0; k < i-pos-rise+1; k++ {
+					a *= 1 - 1/tau
+				}
+			}
+			v := interp(s[i], signed) + int(a)
+			if v < lo {
+				v = lo
+			}
+			if v > hi {
+				v = hi
+			}
+			s[i] = RawType(uint16(v))
+		}
+		made++
+	}
+	return made
 }
